@@ -32,7 +32,23 @@ type fn struct {
 	edges    [][3]string     // held, acquired, where
 	unbal    []string
 	callHeld []callSite
+	access   []fieldAccess // uses of a guarded field, with the locks held there
 }
+
+// fieldAccess: a use of one of the guarded fields (a selector x.<field>)
+type fieldAccess struct {
+	field string
+	held  []string
+	pos   string
+}
+
+// guardedFields: package -> field -> the mutex that the package's own comments and every existing use
+// say protects it. The analysis below reports the uses that are not under it.
+var guardedFields = map[string]map[string]string{
+	"client": {"monitors": "monitorsMutex", "deferUpdates": "cacheMutex", "deferredUpdates": "cacheMutex", "connected": "rpcMutex", "activeEndpoint": "rpcMutex"},
+	"server": {"monitors": "monitorMutex"},
+}
+var curGuarded map[string]string
 
 type callSite struct {
 	callee string
@@ -51,6 +67,10 @@ var curRecvName, curRecvType string
 
 // names of the package-level (receiver-less) functions of the package being analysed
 var pkgFuncs = map[string]bool{}
+
+// unexported method name -> the types of the package that define it. A call x.m() of an unexported method
+// can only reach a method of this package, so when one type defines m the callee is known whatever x is.
+var pkgMethods = map[string][]string{}
 
 func mutexName(e ast.Expr) string {
 	// X.mu, o.rpcMutex, db.cacheMutex, t.mutex, r.mutex ...
@@ -139,13 +159,38 @@ func (w *walker) call(c *ast.CallExpr, h *heldSet, deferred bool) {
 		callee := curRecvType + "." + sel.Sel.Name
 		w.f.calls[callee] = true
 		w.f.callHeld = append(w.f.callHeld, callSite{callee, append([]string{}, h.locks...), w.f.name + " " + w.pos(c)})
+		return
 	}
+	if ts := pkgMethods[sel.Sel.Name]; len(ts) == 1 && !ast.IsExported(sel.Sel.Name) {
+		callee := ts[0] + "." + sel.Sel.Name
+		w.f.calls[callee] = true
+		w.f.callHeld = append(w.f.callHeld, callSite{callee, append([]string{}, h.locks...), w.f.name + " " + w.pos(c)})
+	}
+}
+
+// fields records the uses of guarded fields in e (function literals excluded: they are functions of their own)
+func (w *walker) fields(e ast.Node, h *heldSet) {
+	if e == nil || len(curGuarded) == 0 {
+		return
+	}
+	ast.Inspect(e, func(n ast.Node) bool {
+		switch t := n.(type) {
+		case *ast.FuncLit:
+			return false
+		case *ast.SelectorExpr:
+			if _, ok := curGuarded[t.Sel.Name]; ok {
+				w.f.access = append(w.f.access, fieldAccess{t.Sel.Name, append([]string{}, h.locks...), w.f.name + " " + w.pos(t)})
+			}
+		}
+		return true
+	})
 }
 
 func (w *walker) exprCalls(e ast.Node, h *heldSet) {
 	if e == nil {
 		return
 	}
+	w.fields(e, h)
 	ast.Inspect(e, func(n ast.Node) bool {
 		switch t := n.(type) {
 		case *ast.FuncLit:
@@ -176,6 +221,9 @@ func (w *walker) stmt(s ast.Stmt, h *heldSet) {
 		for _, r := range t.Rhs {
 			w.exprCalls(r, h)
 		}
+		for _, l := range t.Lhs {
+			w.fields(l, h)
+		}
 	case *ast.DeclStmt:
 		w.exprCalls(t, h)
 	case *ast.ReturnStmt:
@@ -200,6 +248,8 @@ func (w *walker) stmt(s ast.Stmt, h *heldSet) {
 		}
 	case *ast.ForStmt:
 		w.stmt(t.Init, h)
+		w.fields(t.Cond, h)
+		w.fields(t.Post, h)
 		hb := h.clone()
 		w.stmts(t.Body.List, &hb)
 	case *ast.RangeStmt:
@@ -240,11 +290,24 @@ func analysePkg(dir string) (*pkgFacts, error) {
 	}
 	pf := &pkgFacts{fns: map[string]*fn{}}
 	pkgFuncs = map[string]bool{}
+	pkgMethods = map[string][]string{}
+	curGuarded = guardedFields[filepath.Base(dir)]
 	for _, p := range pkgs {
 		for _, file := range p.Files {
 			for _, d := range file.Decls {
 				if fd, ok := d.(*ast.FuncDecl); ok && fd.Recv == nil {
 					pkgFuncs[fd.Name.Name] = true
+				} else if ok && len(fd.Recv.List) > 0 {
+					t := fd.Recv.List[0].Type
+					if st, ok := t.(*ast.StarExpr); ok {
+						t = st.X
+					}
+					if ix, ok := t.(*ast.IndexExpr); ok {
+						t = ix.X
+					}
+					if id, ok := t.(*ast.Ident); ok {
+						pkgMethods[fd.Name.Name] = append(pkgMethods[fd.Name.Name], id.Name)
+					}
 				}
 			}
 		}
@@ -290,6 +353,7 @@ func analysePkg(dir string) (*pkgFacts, error) {
 						old.edges = append(old.edges, f.edges...)
 						old.unbal = append(old.unbal, f.unbal...)
 						old.callHeld = append(old.callHeld, f.callHeld...)
+						old.access = append(old.access, f.access...)
 						return
 					}
 					pf.fns[name] = f
@@ -343,6 +407,55 @@ func (pf *pkgFacts) acquiresOf(name string, seen map[string]bool) map[string]boo
 			out[k] = true
 		}
 	}
+	return out
+}
+
+// unguarded: the uses of a guarded field that are not under its mutex. A use in a function that does not
+// take the mutex itself is accepted when every call of that function in the package is made with the mutex
+// held (transitively); a function nobody in the package calls (API, goroutine body) has no such excuse.
+func (pf *pkgFacts) unguarded(guards map[string]string) []string {
+	callers := map[string][]callSite{} // callee -> sites (held = locks at the site, pos starts with the caller's name)
+	for _, name := range pf.order {
+		for _, cs := range pf.fns[name].callHeld {
+			callers[cs.callee] = append(callers[cs.callee], callSite{name, cs.held, cs.pos})
+		}
+	}
+	has := func(held []string, m string) bool {
+		for _, h := range held {
+			if h == m {
+				return true
+			}
+		}
+		return false
+	}
+	var covered func(fn, m string, seen map[string]bool) bool
+	covered = func(fn, m string, seen map[string]bool) bool {
+		if seen[fn] {
+			return true
+		}
+		seen[fn] = true
+		sites := callers[fn]
+		if len(sites) == 0 {
+			return false
+		}
+		for _, cs := range sites {
+			if !has(cs.held, m) && !covered(cs.callee, m, seen) {
+				return false
+			}
+		}
+		return true
+	}
+	var out []string
+	for _, name := range pf.order {
+		for _, a := range pf.fns[name].access {
+			m := guards[a.field]
+			if has(a.held, m) || covered(name, m, map[string]bool{}) {
+				continue
+			}
+			out = append(out, fmt.Sprintf("%s used without %s at %s", a.field, m, a.pos))
+		}
+	}
+	sort.Strings(out)
 	return out
 }
 
@@ -478,6 +591,16 @@ func main() {
 		}
 		sort.Strings(unbal)
 		b.WriteString(fmt.Sprintf("/-- returns of package %s reached with a mutex held that no defer releases -/\ndef %sUnbalanced : List String := [%s]\n\n", pkg, pkg, quoteAll(unbal)))
+		if g := guardedFields[pkg]; len(g) > 0 {
+			var fs []string
+			for f, m := range g {
+				fs = append(fs, f+" by "+m)
+			}
+			sort.Strings(fs)
+			ug := pf.unguarded(g)
+			b.WriteString(fmt.Sprintf("/-- uses of a mutex-guarded field of package %s (%s) outside its mutex -/\ndef %sUnguarded : List String := [%s]\n\n", pkg, strings.Join(fs, ", "), pkg, quoteAll(ug)))
+			summary[pkg+"_unguarded"] = len(ug)
+		}
 		summary[pkg+"_edges"] = len(es)
 		summary[pkg+"_unbalanced"] = len(unbal)
 		if pkg == "server" {
